@@ -37,8 +37,9 @@ static const char* kHdName[] = {"none", "rec", "throw"};
 
 struct Cfg {
   ArchK arch = AX64; EmK ek = EASM; HdK hk = HREC; bool logger = false;
-  std::string str() const { return std::string("arch=") + kArchName[arch] + " emitter=" + kEmName[ek] + " handler=" + kHdName[hk] + " logger=" + (logger ? "1" : "0"); }
-  int key() const { return ((int(arch) * 3 + int(ek)) * 3 + int(hk)) * 2 + (logger ? 1 : 0); }
+  bool validate = true;     // kValidateAssembler (+kValidateIntermediate); off only for AArch64 "warm" units that have to reach the fast path of _emit
+  std::string str() const { return std::string("arch=") + kArchName[arch] + " emitter=" + kEmName[ek] + " handler=" + kHdName[hk] + " logger=" + (logger ? "1" : "0") + " validate=" + (validate ? "1" : "0"); }
+  int key() const { return (((int(arch) * 3 + int(ek)) * 3 + int(hk)) * 2 + (logger ? 1 : 0)) * 2 + (validate ? 1 : 0); }
 };
 
 // kinds: I inst, B bind, A align, E embed, D embed_data_array, L embed_label, X embed_label_delta, S section,
@@ -242,6 +243,7 @@ static bool parse_unit(const std::string& text, Unit& u) {
         if (k == "emitter") for (int i = 0; i < 3; i++) if (v == kEmName[i]) u.cfg.ek = EmK(i);
         if (k == "handler") for (int i = 0; i < 3; i++) if (v == kHdName[i]) u.cfg.hk = HdK(i);
         if (k == "logger") u.cfg.logger = v == "1";
+        if (k == "validate") u.cfg.validate = v != "0";
       }
     } else if (line.rfind("call=", 0) == 0) {
       Call c; parse_call(line, c); u.calls.push_back(c);
@@ -385,8 +387,10 @@ struct Env {
       if (c.ek == EASM) em.reset(new x86::Assembler()); else if (c.ek == EBUILDER) em.reset(new x86::Builder()); else em.reset(new x86::Compiler());
     }
     if (code.attach(em.get()) != Error::kOk) return;
-    em->add_diagnostic_options(DiagnosticOptions::kValidateAssembler);
-    if (c.ek != EASM) em->add_diagnostic_options(DiagnosticOptions::kValidateIntermediate);
+    if (c.validate) {
+      em->add_diagnostic_options(DiagnosticOptions::kValidateAssembler);
+      if (c.ek != EASM) em->add_diagnostic_options(DiagnosticOptions::kValidateIntermediate);
+    }
     // preamble: label ids 0 (bound at 0), 1 (unbound until the epilogue), 2 (named "dup"); a second section
     L0 = em->new_label(); L1 = em->new_label(); Ldup = em->new_named_label("dup");
     if (L0.id() != 0 || L1.id() != 1 || Ldup.id() != 2) return;
@@ -923,6 +927,10 @@ static std::vector<Sym> build_w_x86() {
   add(x86::Mem(rax, st(1), 0, 0)); add(x86::Mem(rax, gpw(1), 0, 0)); add(x86::Mem(rax, gpb_lo(1), 1, 0)); add(x86::Mem(eax, rcx, 0, 0)); add(x86::Mem(rax, mm(1), 0, 0));
   add(ptr(rip, 0)); add(ptr(rip, 0x1000)); add(ptr(Rip(1), 0)); add(x86::Mem(rip, rcx, 0, 0)); add(x86::Mem(rip, xmm1, 0, 0));
   add(ptr(Label(3))); add(ptr(Label(4), 4));
+  // label base + index register (in 32-bit mode this is an absolute address + relocation with a SIB byte, in 64-bit mode it is
+  // not encodable): ids that do not exist, gp index with / without scale and displacement, vector index (VSIB)
+  add(ptr(Label(12345), ecx, 2)); add(ptr(Label(3), ecx)); add(ptr(Label(4), esi, 0, 16)); add(ptr(Label(3), rcx, 3)); add(ptr(Label(Globals::kInvalidId), ecx, 2, -8));
+  add(ptr(Label(3), xmm1, 2)); add(ptr(Label(4), ymm1, 0, 8)); add(ptr(Label(0), xmm1, 2));
   add(ptr(Label(0))); add(ptr(Label(1), 4)); add(ptr(Label(12345))); add(ptr(Label(Globals::kInvalidId))); add(ptr(Label(0), rcx, 2)); add(ptr(Label(1), ecx, 0)); add(ptr(Label(12345), xmm1, 0));
   for (uint32_t sg : {1u, 5u, 6u, 7u}) { x86::Mem m = ptr(eax); m.set_segment(sg); add(m); }
   { x86::Mem m = ptr(rax, 8); m.set_segment(7); add(m); }
@@ -1335,8 +1343,17 @@ static void gen_a64(Gen& g, bool thorough) {
           Unit u; u.cfg.arch = AA64; u.cfg.ek = ek; u.cfg.hk = hk; u.cfg.logger = ek == EASM && hk == HREC && (g.idx % 4) == 0; u.group = "a64:fields";
           u.calls.push_back(c); g.sink(u);
         };
+        // "warm" twin of a unit: no logger, no validation, and a valid instruction first, so that the perturbed call is not the
+        // first one of an empty buffer - only then a64::Assembler::_emit() takes its fast path (AArch64 has no operand validator,
+        // the must-reject reasons do not depend on the diagnostic options)
+        auto emit_warm = [&](const Call& c) {
+          if (!g.want_cfg(200 + int(ek) * 3 + int(hk) + (g.idx % 16))) return;
+          Unit u; u.cfg.arch = AA64; u.cfg.ek = ek; u.cfg.hk = hk; u.cfg.logger = false; u.cfg.validate = false; u.group = "a64:fields-warm";
+          Call nop; nop.kind = 'I'; nop.id = a64::Inst::kIdNop; nop.nops = 0; nop.tag = "nop"; nop.expect_ok = true;
+          u.calls.push_back(nop); u.calls.push_back(c); g.sink(u);
+        };
         // k = 0 (default instantiation; must be accepted - harness self check)
-        { Call c = a64_call(t, dflt, ""); c.expect_ok = true; emit1(c); }
+        { Call c = a64_call(t, dflt, ""); c.expect_ok = true; emit1(c); emit_warm(c); }
         // k = 1
         int alt = 0;
         for (size_t i = 0; i < t.fields.size(); i++) for (auto& v : alph[i]) {
@@ -1346,6 +1363,8 @@ static void gen_a64(Gen& g, bool thorough) {
           // every other perturbed call carries one-shot state (inline comment, an option bit without meaning on AArch64)
           if ((alt++ & 1) != 0) { c.comment = true; c.opt = uint32_t(InstOptions::kOverwrite); }
           emit1(c);
+          c.comment = false; c.opt = 0;        // (an option bit is one of the things that force the slow path)
+          emit_warm(c);
         }
         // k = 2
         if (kmax >= 2) for (size_t i = 0; i < t.fields.size(); i++) for (size_t j = i + 1; j < t.fields.size(); j++) for (auto& v : alph[i]) for (auto& w : alph[j]) {
@@ -1355,8 +1374,12 @@ static void gen_a64(Gen& g, bool thorough) {
         }
         // instruction id perturbation with the operands kept
         const uint32_t cnt = uint32_t(a64::Inst::_kIdCount);
-        for (uint32_t id : {0u, 0x10000000u /* id 0 with a condition */, cnt, cnt + 1, 0xFFFFu, 0xFFFFFFFFu}) emit1(a64_call(t, dflt, "invalid-instruction-id", int64_t(id)));
-        if (t.id != a64::Inst::kIdB) emit1(a64_call(t, dflt, "condition-code-on-unconditional-instruction", int64_t(BaseInst::compose_arm_inst_id(t.id, arm::CondCode::kEQ))));
+        for (uint32_t id : {0u, 0x10000000u /* id 0 with a condition */, cnt, cnt + 1, 0xFFFFu, 0xFFFFFFFFu}) { Call c = a64_call(t, dflt, "invalid-instruction-id", int64_t(id)); emit1(c); emit_warm(c); }
+        if (t.id != a64::Inst::kIdB) for (arm::CondCode cc : {arm::CondCode::kEQ, arm::CondCode::kNA, arm::CondCode::kLE}) {
+          Call c = a64_call(t, dflt, "condition-code-on-unconditional-instruction", int64_t(BaseInst::compose_arm_inst_id(t.id, cc)));
+          if (cc == arm::CondCode::kEQ) emit1(c);
+          emit_warm(c);
+        }
       }
       // b.<cond> label with every condition
       if (g.want_cfg(100 + int(ek) * 3 + int(hk))) {
@@ -1461,6 +1484,16 @@ static std::vector<Call> weird_misc_calls(ArchK arch) {
       j.id = x86::Inst::kIdJmp; j.nops = 1; j.ops[0] = Label(lid); j.tag = "jmp"; x.push_back(j);
       j.id = x86::Inst::kIdLea; j.nops = 2; j.ops[0] = x86::eax; j.ops[1] = x86::ptr(Label(lid)); j.tag = "lea"; x.push_back(j);
       j.id = x86::Inst::kIdMov; j.nops = 2; j.ops[0] = x86::eax; j.ops[1] = x86::ptr(Label(lid), 4); j.tag = "mov"; x.push_back(j);
+    }
+  }
+  if (arch != AA64) {                  // label base + index register (gp and VSIB), boundary and far ids
+    x86::Gp idx = arch == AX64 ? x86::Gp(x86::rcx) : x86::Gp(x86::ecx);
+    for (uint32_t lid : {3u, 4u, 12345u, 1u}) {
+      const char* must = lid > 64 ? "mem-label-invalid" : "";
+      Call j; j.kind = 'I'; j.must = must;
+      j.id = x86::Inst::kIdMov; j.nops = 2; j.ops[0] = x86::eax; j.ops[1] = x86::ptr(Label(lid), idx, 2); j.tag = "mov"; x.push_back(j);
+      j.id = x86::Inst::kIdLea; j.nops = 2; j.ops[0] = x86::edx; j.ops[1] = x86::ptr(Label(lid), idx, 0, 16); j.tag = "lea"; x.push_back(j);
+      j.id = x86::Inst::kIdVpgatherdd; j.nops = 3; j.ops[0] = x86::xmm0; j.ops[1] = x86::ptr(Label(lid), x86::xmm1, 2); j.ops[2] = x86::xmm2; j.tag = "vpgatherdd"; x.push_back(j);
     }
   }
   if (arch == AA64) {
